@@ -515,6 +515,7 @@ def compare(ctx, opname, qual, sch, got, want, case, what="wrong-rows"):
     if how == "rows" and what == "wrong-rows" and loose_eq(got, want):
         what = "numeric-type-changed"          # same numbers, int <-> float <-> bool
         who = "ragged-numeric" if who in RAGGED_NUM else who
+        qual = ""
     sig = "%s:%s:%s%s" % (opname, who, what if how == "rows" else "wrong-row-count", qual)
     ctx.col.fail(sig, case, "columns %s: got %r expected %r" % ([f.name for f in bad], got[:4], want[:4]))
     return False
@@ -1197,13 +1198,13 @@ def run(tier="quick", seed=0):
                             "replace every column (list, container, alternative container, two at once), add_fields typed / "
                             "inferred, 4 round trips; rep = one parameter per class (~28 operations); mini = one per operation (~10)",
         "primary kind schemas [k:int, v:kind] (int float bool Optional[int] str SequenceID List[int] strand DNA nested)":
-            "n=3: full x mini, n=0..2: full (depth 1)" if quick else "n=0..3: full x full; n=3, kinds int str SequenceID List[int] strand nested: rep x mini x rep (depth 3)",
+            "n=3 and n=0: full x mini, n=1,2: full (depth 1)" if quick else "n=0..3: full x full; n=3, kinds int str SequenceID List[int] strand nested: rep x mini x rep (depth 3)",
         "secondary kind schemas (Union[..,str] List[float] List[bool] quality cigar-op cigar-length BAM-sequence List[str])":
             "n in {0,1,3}: rep (depth 1)" if quick else "n=0..3: full x rep",
-        "wide (10 kinds) / nested-in-nested / single-column": "n=3: rep x mini (singles: rep), n=0,1: rep" if quick else "n=0..3: full x rep",
+        "wide (10 kinds) / nested-in-nested / single-column": "n=3: rep x mini (singles: rep), n=0,1: rep" if quick else "n=3: full x rep, n=0..2: rep x mini",
         "bionumpy.datatypes (27 classes; 3 genotype-row classes not modelled)":
             "n=3: rep, n=0: mini (depth 1)" if quick else "n=3: rep x mini, n=0..2: rep",
-        "sampled": "%d random programs of 3 operations (full parameters) per kind / wide / nested schema, n=3, seeded" % (25 if quick else 300),
+        "sampled": "%d random programs of 3 operations (full parameters) per kind / wide / nested schema, n=3, seeded" % (25 if quick else 200),
         "construct": "every schema x n=0..3 x input forms python lists / keyword arguments / library containers / alternative "
                      "containers (tuple, numpy U/S arrays, base-encoded text, list of arrays) / cls.empty(); 12 ill-typed inputs x n in {1,3}; "
                      "one column shorter / longer by 1 in constructor, replace, add_fields",
@@ -1253,7 +1254,7 @@ def run(tier="quick", seed=0):
         if not quick:
             plan = [([0, 1, 2, 3], ("full", "full"))] if sch.name in primary else [([0, 1, 2, 3], ("full", "rep"))]
         elif sch.name in primary:
-            plan = [([3], ("full", "mini")), ([0, 1, 2], ("full",))]
+            plan = [([3, 0], ("full", "mini")), ([1, 2], ("full",))]
         else:
             plan = [([0, 1, 3], ("rep",))]
         for ns, levels in plan:
@@ -1264,7 +1265,8 @@ def run(tier="quick", seed=0):
             section(sch.name, lambda: (run_programs(col, sch, [3], ("rep", "mini") if deep else ("rep",)),
                                        run_programs(col, sch, [0, 1], ("rep",))))
         else:
-            section(sch.name, lambda: run_programs(col, sch, [0, 1, 2, 3], ("full", "rep")))
+            section(sch.name, lambda: (run_programs(col, sch, [3], ("full", "rep")),
+                                       run_programs(col, sch, [0, 1, 2], ("rep", "mini"))))
     for sch in datatype_schemas():
         if quick:
             section(sch.name, lambda: (run_programs(col, sch, [3], ("rep",)), run_programs(col, sch, [0], ("mini",))))
@@ -1276,7 +1278,7 @@ def run(tier="quick", seed=0):
             if sch.name in ("K_int", "K_str", "K_sid", "K_li", "K_strand", "K_nested"):
                 section(sch.name + " d3", lambda: run_programs(col, sch, [3], ("rep", "mini", "rep")))
     for sch in kind_schemas() + other_schemas():
-        section(sch.name + " sampled", lambda: sample_programs(col, sch, 3, 3, 25 if quick else 300))
+        section(sch.name + " sampled", lambda: sample_programs(col, sch, 3, 3, 25 if quick else 200))
     return col.result()
 
 
